@@ -141,7 +141,65 @@ def directed_cases(seed, n):
     return out
 
 
+# ---- end-to-end clause: an escaped reference written in an env value, rule or task reaches the command as literal text
+
+def escape_project(seed, i):
+    from . import projgen
+    rng = random.Random(seed * 2909 + i)
+    p = projgen.gen_project(seed + 1300, i, projgen.profile(p_escape=0.0, p_tasks=0.0, p_custom_build=0.0, p_download=0.0, p_cycle=0.0,
+                                                            p_varopts=0.0, p_cli_define=0.0, p_hard_missing=0.0, n_apps=(1, 2)))
+    root = p["files"]["laze-project.yml"][0]
+    default = root["contexts"][0]
+    tag = f"LIT{i}"
+    where = rng.choice(["context-env", "module-global", "module-local", "rule-cmd", "task-cmd"])
+    apps = [m for k, m, path in __import__("lazeverif.projcheck", fromlist=["x"]).yaml_modules(p) if k == "apps"]
+    esc = "\\${" + tag + "}"
+    if where == "context-env":
+        default.setdefault("env", {})["ESCV"] = "pre " + esc + " post"
+    elif where == "module-global":
+        for a in apps:
+            a.setdefault("env", {}).setdefault("global", {})["ESCV"] = [esc, "x"]
+    elif where == "module-local":
+        for a in apps:
+            a.setdefault("env", {}).setdefault("local", {})["ESCV"] = esc
+            a.setdefault("sources", []).append("esc_" + a["name"] + ".c")
+    # the variable named inside the escape IS defined: a wrong un-escaping would substitute it
+    default.setdefault("env", {})[tag] = "SUBSTITUTED"
+    for r in default["rules"]:
+        if r["name"] in ("LINK", "CC"):
+            r["cmd"] = r["cmd"] + " ${ESCV}" + (" " + esc if where == "rule-cmd" else "")
+    if where == "task-cmd":
+        default["tasks"] = {"esc": {"cmd": ["echo " + esc], "build": False}}
+    p["_escape"] = {"where": where, "tag": tag}
+    return p
+
+
+def escape_oracle(chk, p, r, m):
+    from . import projrun, projcheck
+    if projrun.impl_status(r) != "ok":
+        return
+    tag, where = p["_escape"]["tag"], p["_escape"]["where"]
+    lit = "${" + tag + "}"
+    chk.count("escape-project:" + where)
+    if where == "task-cmd":
+        for b in projcheck.built(r):
+            for t in b["tasks"]:
+                if t[0] == "esc" and t[1] == "ok":
+                    if t[2]["cmd"] != ["echo " + lit]:
+                        chk.fail_oracle("escape:task", f"task command written as echo \\{lit} became {t[2]['cmd']}", {"project": p})
+        return
+    text = r["ninja"] or ""
+    if "SUBSTITUTED" in text:
+        chk.fail_oracle("escape:" + where, f"escaped reference \\{lit} written in {where} was substituted in a generated command", {"project": p})
+    elif projcheck.built(r) and lit not in text and where != "module-local":
+        chk.fail_oracle("escape:" + where + ":lost", f"escaped reference \\{lit} written in {where} does not reach any command as literal {lit}", {"project": p})
+
+
 def run(chk):
+    from . import projcheck
+    k = 60 if chk.tier == "quick" else 2000
+    projcheck.campaign(chk, None, 0, ("status", "decision", "global_env", "module_env", "tasks", "ninja"), escape_oracle, lambda c, p, r, m: True,
+                       extra_projects=[escape_project(chk.seed, i) for i in range(k)], label="esc:")
     n = 40000 if chk.tier == "quick" else 1500000
     chk.rule = ("grammar-generated strings (literals, ${k}, \\${k}, $(expr), $$(, stray markers, multi-byte chars adjacent "
                 "to markers) x variable maps (self/cyclic references) x 3 policies, ops expand/expand_eval/eval; "
